@@ -29,6 +29,22 @@ FORBIDDEN_ESCAPES_REF_PATTERN = re.compile(
 )
 
 
+LITERAL_METACHARACTERS = re.compile(r'([\\|.\-^?*+{}()\[\]$])')
+LITERAL_VERBOSE_CHARACTERS = re.compile(r'([ #\x0b\x0c])')
+
+
+def escape_literal_pattern(pattern: str) -> str:
+    """
+    Escapes the metacharacters of the XML Schema/XPath regex syntax, for patterns that have
+    to be matched as literal strings (flag 'q'). Unlike re.escape() no other character is
+    escaped, because other escapes are invalid (e.g. a space, '#', '&' or '~'). The characters
+    that the flag 'x' would remove are protected, because that flag has no effect with 'q'.
+    """
+    pattern = LITERAL_METACHARACTERS.sub(r'\\\1', pattern)
+    pattern = pattern.replace('\t', r'\t').replace('\n', r'\n').replace('\r', r'\r')
+    return LITERAL_VERBOSE_CHARACTERS.sub(r'[\1]', pattern)
+
+
 def translate_pattern(pattern: str, flags: int = 0, xsd_version: str = '1.0',
                       back_references: bool = True, lazy_quantifiers: bool = True,
                       anchors: bool = True) -> str:
